@@ -1,6 +1,6 @@
 SPEC_PART = dict(
     props_file="C12_bloom",
-    legs=[dict(family="bloom", focus="codec", oracles=["prop_layout"], profiles=["debug"], n_quick=100, n_thorough=1000)],
+    legs=[dict(family="bloom", focus="codec", oracles=["prop_layout"], profiles=["debug"], n_quick=100, n_thorough=1000, panic_is_violation=True)],
     trusted=["bloom image layout = my reading of the Java/C++ BloomFilter format (DESIGN.md Appendix A; Spec/BloomLayout.v, literal "
              "constants only); doubt recorded: the decoder takes preamble-longs 3 or 4 for either form"],
     assumptions=[],
